@@ -54,19 +54,23 @@ theorem dep_refines {c : CW} {s : WS} (hi : Inv c) (hr : Rel c s) (comp : CompId
 
 /-! ## the marked set -/
 
-theorem value_inj {a b : Handle} (ha : HRange a) (hb : HRange b) (h : a.value = b.value) : a = b := by
+theorem value_inj {wid : Nat} {a b : Handle} (ha : HRange wid a) (hb : HRange wid b) (h : a.value = b.value) : a = b := by
   cases a with | mk ai av aw => cases b with | mk bi bv bw =>
   simp only [HRange] at ha hb
   simp only [Handle.value] at h
   have h30 : (2:Nat)^30 = 1073741824 := by decide
   have h40 : (2:Nat)^40 = 1099511627776 := by decide
-  have h10 : (2:Nat)^10 = 1024 := by decide
-  rw [h30, h10] at ha hb
+  rw [h30] at ha hb
   rw [h30, h40] at h
-  have : ai = bi ∧ av = bv ∧ aw = bw := by omega
-  rw [this.1, this.2.1, this.2.2]
+  obtain ⟨ha1, ha2⟩ := ha
+  obtain ⟨hb1, hb2⟩ := hb
+  subst ha2
+  subst hb2
+  have : ai = bi ∧ av = bv := by omega
+  rw [this.1, this.2]
 
-theorem mem_insertSorted {l : List Handle} {h : Handle} (hl : ∀ x ∈ l, HRange x) (hh : HRange h) (x : Handle) :
+theorem mem_insertSorted {wid : Nat} {l : List Handle} {h : Handle} (hl : ∀ x ∈ l, HRange wid x) (hh : HRange wid h)
+    (x : Handle) :
     x ∈ insertSorted l h ↔ x = h ∨ x ∈ l := by
   induction l with
   | nil => simp [insertSorted]
@@ -159,9 +163,20 @@ theorem alive_lt {s : WS} {k : Nat} (h : (s.alive k).isSome = true) : k < s.ents
   rw [List.getD_eq_getElem?_getD, List.getElem?_eq_none (by omega)] at h
   cases h
 
+theorem valid_range {c : CW} (hb : Bounds c) {e : Handle} (hv : c.w.isValid e = true) : HRange c.w.worldId e := by
+  have hlt := isValid_id_lt hv
+  have hw : e.world = c.w.worldId := by
+    unfold WM.isValid at hv
+    simp only [Bool.and_eq_true, beq_iff_eq] at hv
+    exact hv.1.2
+  refine ⟨?_, hw⟩
+  have := hb.inRange
+  have h30 : (2:Nat)^30 = 1073741824 := by decide
+  rw [h30] at this ⊢
+  omega
+
 theorem destroy_unlocked_refines {c : CW} {s : WS} (hi : Inv c) (hb : Bounds c) (hr : Rel c s)
-    (hl : c.w.isLocked = false) (t : Nat) (e : Handle) (hk : Known c e) (hrg : HRange e) :
-    StepRefines info c s (.destroy t e) := by
+    (hl : c.w.isLocked = false) (t : Nat) (e : Handle) : StepRefines info c s (.destroy t e) := by
   obtain ⟨w, iss⟩ := c
   have hl2 : w.isLocked = false := hl
   have hnl := unlocked_spec hr hl
@@ -170,114 +185,90 @@ theorem destroy_unlocked_refines {c : CW} {s : WS} (hi : Inv c) (hb : Bounds c) 
     | zero => rfl
     | succ n => have := (isLocked_iff w).mpr (by omega); rw [hl2] at this; cases this
   have hch : createHandles w.buffers = [] := createHandles_of_empty (hi.bufEmpty hd0)
-  have hstep : CW.step info ⟨w, iss⟩ (.destroy t e) = (⟨{ w with marked := insertSorted w.marked e }, iss⟩, .ok, []) := by
-    simp only [CW.step, WM.step, WM.destroy, hl2, Bool.false_eq_true, if_false, issueOut]
-  have hmem := mem_insertSorted (l := w.marked) (h := e) hi.markedRange hrg
   have hvr := valid_refines hi hb hr e
-  have hinv' : Inv ⟨{ w with marked := insertSorted w.marked e }, iss⟩ :=
-    { tinv := hi.tinv
-      pendNodup := hi.pendNodup
-      rows := ⟨hi.rows.vals, hi.rows.loc⟩
-      keys := ⟨hi.keys.masks, hi.keys.distinct⟩
-      live := ⟨hi.live.live_in, hi.live.row_live⟩
-      pool := ⟨hi.pool.vals_nodup, hi.pool.insts_nodup, hi.pool.inst_lt, hi.pool.inst_sid⟩
-      shared := hi.shared
-      closed := hi.closed
-      depsB := hi.depsB
-      locsCover := hi.locsCover
-      bufLe := hi.bufLe
-      bufLen := hi.bufLen
-      bufEmpty := hi.bufEmpty
-      bufKnown := hi.bufKnown
-      markedKnown := by
-        intro x hx
-        rcases (hmem x).mp hx with rfl | hx'
-        · exact ⟨hk, by show x ∉ createHandles w.buffers; rw [hch]; simp⟩
-        · exact hi.markedKnown x hx'
-      markedRange := by
-        intro x hx
-        rcases (hmem x).mp hx with rfl | hx'
-        · exact hrg
-        · exact hi.markedRange x hx'
-      markedSorted := sorted_insertSorted e hi.markedSorted }
-  unfold StepRefines
-  rw [hstep]
-  refine ⟨hinv', ?_, ?_⟩
-  · cases ho : ordOf iss e with
-    | none =>
-      have hs : s.step info (Op.mapRef (ordOf iss) (.destroy t e)) = (s, .ok, []) := by
-        simp only [Op.mapRef, WS.step, hnl, if_false, ho]
-      rw [hs]
+  cases hve : w.isValid e with
+  | false =>
+    -- a handle that is not alive is not queued
+    apply noop_refines info hi hr _ rfl
+    · simp only [CW.step, WM.step, WM.destroy, hl2, Bool.false_eq_true, if_false, hve, issueOut]
+    · simp only [Op.mapRef, WS.step, hnl, if_false]
+      cases ho : ordOf iss e with
+      | none => rfl
+      | some k =>
+        have ho' : ordOf (⟨w, iss⟩ : CW).issued e = some k := ho
+        rw [show (⟨w, iss⟩ : CW).w = w from rfl, hve, ho'] at hvr
+        simp only [WS.isAlive] at hvr
+        simp only [← hvr, Bool.false_eq_true, if_false]
+  | true =>
+    have hk : Known ⟨w, iss⟩ e := Or.inl (valid_issued (c := ⟨w, iss⟩) hi hb hve)
+    have hrg : HRange w.worldId e := valid_range (c := ⟨w, iss⟩) hb hve
+    have hstep : CW.step info ⟨w, iss⟩ (.destroy t e) = (⟨{ w with marked := insertSorted w.marked e }, iss⟩, .ok, []) := by
+      simp only [CW.step, WM.step, WM.destroy, hl2, Bool.false_eq_true, if_false, hve, if_true, issueOut]
+    have hmem := mem_insertSorted (l := w.marked) (h := e) hi.markedRange hrg
+    have hinv' : Inv ⟨{ w with marked := insertSorted w.marked e }, iss⟩ :=
+      { tinv := hi.tinv
+        pendNodup := hi.pendNodup
+        rows := ⟨hi.rows.vals, hi.rows.loc⟩
+        keys := ⟨hi.keys.masks, hi.keys.distinct⟩
+        live := ⟨hi.live.live_in, hi.live.row_live⟩
+        pool := ⟨hi.pool.vals_nodup, hi.pool.insts_nodup, hi.pool.inst_lt, hi.pool.inst_sid⟩
+        shared := hi.shared
+        closed := hi.closed
+        depsB := hi.depsB
+        locsCover := hi.locsCover
+        bufLe := hi.bufLe
+        bufLen := hi.bufLen
+        bufEmpty := hi.bufEmpty
+        bufKnown := hi.bufKnown
+        markedKnown := by
+          intro x hx
+          rcases (hmem x).mp hx with rfl | hx'
+          · exact ⟨hk, by show x ∉ createHandles w.buffers; rw [hch]; simp⟩
+          · exact hi.markedKnown x hx'
+        markedRange := by
+          intro x hx
+          rcases (hmem x).mp hx with rfl | hx'
+          · exact hrg
+          · exact hi.markedRange x hx'
+        markedSorted := sorted_insertSorted e hi.markedSorted }
+    have hmemiss := valid_issued (c := ⟨w, iss⟩) hi hb hve
+    cases ho : ordOf iss e with
+    | none => exact absurd hmemiss ((ordOf_none_iff _ _).mp ho)
+    | some k =>
+      have ho' : ordOf (⟨w, iss⟩ : CW).issued e = some k := ho
+      rw [show (⟨w, iss⟩ : CW).w = w from rfl, hve, ho'] at hvr
+      simp only [WS.isAlive] at hvr
+      have hak : (s.alive k).isSome = true := hvr.symm
+      have hs : s.step info (Op.mapRef (ordOf iss) (.destroy t e)) =
+          ({ s with marked := insertNat s.marked k }, .ok, []) := by
+        simp only [Op.mapRef, WS.step, hnl, if_false, ho, hak, if_true]
+      unfold StepRefines
+      rw [hstep, hs]
+      refine ⟨hinv', ?_, agree_ok_nil _ _ rfl⟩
       exact
       { len := hr.len, ents := hr.ents, deps := hr.deps, lockDepth := hr.lockDepth, nthreads := hr.nthreads
-        buffers := hr.buffers, markedLt := hr.markedLt, markedNodup := hr.markedNodup
+        buffers := hr.buffers
+        markedNodup := nodup_insertNat hr.markedNodup k
+        markedLt := by
+          intro o hom
+          rcases (mem_insertNat _ _ _).mp hom with rfl | h
+          · exact alive_lt hak
+          · exact hr.markedLt o h
         marked := by
           intro o
-          rw [hr.marked o]
+          show (o ∈ insertNat s.marked k ∧ (s.alive o).isSome = true) ↔ _
+          rw [mem_insertNat]
           constructor
-          · rintro ⟨h, hm, hv, hoo⟩; exact ⟨h, (hmem h).mpr (Or.inr hm), hv, hoo⟩
+          · rintro ⟨rfl | hm, ha⟩
+            · exact ⟨e, (hmem e).mpr (Or.inl rfl), hve, ho⟩
+            · rcases (hr.marked o).mp ⟨hm, ha⟩ with ⟨h, hm', hv, hoo⟩
+              exact ⟨h, (hmem h).mpr (Or.inr hm'), hv, hoo⟩
           · rintro ⟨h, hm, hv, hoo⟩
             rcases (hmem h).mp hm with rfl | hm'
             · have : ordOf iss h = some o := hoo
               rw [ho] at this; cases this
-            · exact ⟨h, hm', hv, hoo⟩ }
-    | some k =>
-      have ho' : ordOf (⟨w, iss⟩ : CW).issued e = some k := ho
-      rw [ho'] at hvr
-      simp only [WS.isAlive] at hvr
-      have hs : s.step info (Op.mapRef (ordOf iss) (.destroy t e)) =
-          (if (s.alive k).isSome then { s with marked := insertNat s.marked k } else s, .ok, []) := by
-        simp only [Op.mapRef, WS.step, hnl, if_false, ho]
-      rw [hs]
-      by_cases hak : (s.alive k).isSome = true
-      · rw [if_pos hak]
-        have hve : w.isValid e = true := by rw [← hak]; exact hvr
-        exact
-        { len := hr.len, ents := hr.ents, deps := hr.deps, lockDepth := hr.lockDepth, nthreads := hr.nthreads
-          buffers := hr.buffers
-          markedNodup := nodup_insertNat hr.markedNodup k
-          markedLt := by
-            intro o hom
-            rcases (mem_insertNat _ _ _).mp hom with rfl | h
-            · exact alive_lt hak
-            · exact hr.markedLt o h
-          marked := by
-            intro o
-            show (o ∈ insertNat s.marked k ∧ (s.alive o).isSome = true) ↔ _
-            rw [mem_insertNat]
-            constructor
-            · rintro ⟨rfl | hm, ha⟩
-              · exact ⟨e, (hmem e).mpr (Or.inl rfl), hve, ho⟩
-              · rcases (hr.marked o).mp ⟨hm, ha⟩ with ⟨h, hm', hv, hoo⟩
-                exact ⟨h, (hmem h).mpr (Or.inr hm'), hv, hoo⟩
-            · rintro ⟨h, hm, hv, hoo⟩
-              rcases (hmem h).mp hm with rfl | hm'
-              · have : ordOf iss h = some o := hoo
-                rw [ho] at this; cases this
-                exact ⟨Or.inl rfl, hak⟩
-              · have := (hr.marked o).mpr ⟨h, hm', hv, hoo⟩
-                exact ⟨Or.inr this.1, this.2⟩ }
-      · rw [if_neg hak]
-        have hve : w.isValid e = false := by
-          have : (s.alive k).isSome = false := by simpa using hak
-          rw [← this]; exact hvr
-        exact
-        { len := hr.len, ents := hr.ents, deps := hr.deps, lockDepth := hr.lockDepth, nthreads := hr.nthreads
-          buffers := hr.buffers, markedLt := hr.markedLt, markedNodup := hr.markedNodup
-          marked := by
-            intro o
-            rw [hr.marked o]
-            constructor
-            · rintro ⟨h, hm, hv, hoo⟩; exact ⟨h, (hmem h).mpr (Or.inr hm), hv, hoo⟩
-            · rintro ⟨h, hm, hv, hoo⟩
-              rcases (hmem h).mp hm with rfl | hm'
-              · have : w.isValid h = true := hv
-                rw [hve] at this; cases this
-              · exact ⟨h, hm', hv, hoo⟩ }
-  · have : (s.step info (Op.mapRef (ordOf iss) (.destroy t e))).2 = (.ok, []) := by
-      simp only [Op.mapRef, WS.step, hnl, if_false]
-      cases ordOf iss e <;> rfl
-    rw [this]
-    exact agree_ok_nil _ _ rfl
+              exact ⟨Or.inl rfl, hak⟩
+            · have := (hr.marked o).mpr ⟨h, hm', hv, hoo⟩
+              exact ⟨Or.inr this.1, this.2⟩ }
 
 end Mustache.Proofs.Refine
